@@ -287,10 +287,10 @@ def emit(prop, case, obs):
 # generation
 
 NAME_POOLS = {
-    "distinct": ["a", "b", "c", "d", "e", "f", "g", "h"],
-    "affix": ["a", "xa", "ab", "b", "bc", "abc", "c", "x"],
-    "special": ["a.b", "(", "a b", "0", "a1", "-", "é", "10"],
-    "repeated": ["a", "b", "a", "c", "b", "a", "c", "d"],
+    "distinct": ["a", "b", "c", "d", "e", "f", "g", "h", "i"],
+    "affix": ["a", "xa", "ab", "b", "bc", "abc", "c", "x", "xab"],
+    "special": ["a.b", "(", "a b", "0", "a1", "-", "é", "10", ""],
+    "repeated": ["a", "b", "a", "c", "b", "a", "c", "d", "b"],
 }
 ATTR_KEYS = ["step", "tag", "w"]
 
@@ -378,6 +378,23 @@ def _random_edges(rng, n, shape):
                 i, j = sorted(rng.sample(range(1, n - 1), 2))
                 if (order[i], order[j]) not in edges:
                     edges.append((order[i], order[j]))
+    elif shape == "hourglass":
+        # grandparents -> k parents -> hub -> chain below (or the mirror image): the k-th parent and what lies
+        # behind it is reachable only through the hub
+        k = min(rng.choice([2, 3, 3, 4]), max(1, (n - 2) // 2))
+        hub = order[0]
+        ps = order[1:1 + k]
+        rest = order[1 + k:]
+        edges = [(p, hub) for p in ps]
+        below = hub
+        for i, q in enumerate(rest):
+            if i < k and rng.random() < 0.8:
+                edges.append((q, ps[k - 1 - i]))          # an exclusive grandparent, last parent first
+            else:
+                edges.append((below, q))
+                below = q
+        if rng.random() < 0.5:
+            edges = [(c, p) for p, c in edges]
     else:
         dens = {"sparse": 0.25, "mixed": 0.45, "dense": 0.8}[shape]
         for j in range(1, n):
@@ -429,7 +446,10 @@ def _attrs(rng, n, style):
 def gen_dag(rng, nmax=7, nmin=2, pools=("distinct", "distinct", "affix", "special", "repeated"), attr_style="none",
             with_del=True):
     n = rng.randint(nmin, nmax)
-    shape = rng.choice(["sparse", "mixed", "mixed", "dense", "dense", "chain", "fanin", "fanout", "diamond", "diamond"])
+    shape = rng.choice(["sparse", "mixed", "mixed", "dense", "dense", "chain", "fanin", "fanout", "diamond", "diamond",
+                        "hourglass", "hourglass"])
+    if shape == "hourglass":
+        n = rng.randint(max(nmin, 5), nmax + 1)
     pool_name = rng.choice(list(pools))
     edges = _random_edges(rng, n, shape)
     ops = _ops_from_edges(rng, edges)
@@ -557,6 +577,9 @@ CORPUS_DAGS = [
     ("second_parent_grandchild", 5, list("abcde"), [["R", 0, 1], ["R", 0, 2], ["R", 2, 3], ["R", 1, 3], ["R", 3, 4]]),
     # two parallel paths and a direct edge
     ("parallel", 4, list("abcd"), [["R", 0, 1], ["R", 0, 2], ["R", 1, 3], ["R", 2, 3], ["R", 0, 3]]),
+    # ancestors behind the third parent of an ancestor / descendants behind the third child of a descendant
+    ("third_parent_behind", 6, list("abcdef"), [["P", 1, [2, 3, 4]], ["R", 1, 0], ["R", 5, 4]]),
+    ("third_child_behind", 6, list("abcdef"), [["C", 1, [2, 3, 4]], ["R", 0, 1], ["R", 4, 5]]),
     ("single", 1, ["a"], []),
     ("two_components", 4, list("abcd"), [["R", 0, 1], ["R", 2, 3]]),
 ]
